@@ -149,6 +149,9 @@ def copy_cond(rep, prog, rule):
             xs, ys = _strip(x), _strip(y)
             if xs[0] == "call" and xs[1] in ("width", "height") and ys[0] == "field":
                 dims.add((xs[1], ys[2], fmt(xs[2][0]) if xs[2] else ""))
+                if x[0] == "cast" and x[1] == "IntToFloat" and y[0] == "field":
+                    # compared as f64 with an integer size: equal only if integral
+                    integral.add(y[2])
     for fld in ("left", "top", "width", "height"):
         if fld in integral:
             rep.ok(rule, "integral|%s" % fld, f.loc, "crop_box.%s == round(..) on the Ok path" % fld)
